@@ -251,6 +251,15 @@ def summarise(crate, body, args=None):
     lines.extend(case_lines(all_cases))
     lines[:] = sorted(set(lines))
     _exit_states(ev, all_cases, exit_ret)
+    # the same content as terms (for the semantic fall-back of REF on loop-free functions): value cases, and the
+    # effects with their values and conditions; consecutive assignments to one place are one assignment of a conditional
+    merged = {}
+    for pc, v in all_cases:
+        cond = T.tand(*pc) if pc else T.TRUE
+        if cond == T.FALSE or CANON(cond) == T.FALSE:
+            continue
+        merged.setdefault(v, []).append(cond)
+    ev.struct = dict(cases=[(CANON(_absorb(cs)), v) for v, cs in merged.items()], effects=[], facts=[])
     effects = []      # (indent, text, frozenset(pc)) in evaluation order
     loops = {}
     reduced = set()
@@ -280,6 +289,14 @@ def summarise(crate, body, args=None):
                 continue    # builds a local value that flows into the result: part of the value terms above
             tgt = e.get('name', '?') + ''.join('.' + f for f in e.get('fields', ()) if f != '[]')
             effects.append((ind, f"{ind}SET {tgt} := {raw(e['value'])} WHEN {pc_text(e['pc'])}", frozenset(e['pc'])))
+            cond = CANON(T.tand(*e['pc'])) if e['pc'] else T.TRUE
+            prev = ev.struct['effects'][-1] if ev.struct['effects'] else None
+            if prev is not None and prev[0] == 'SET' and prev[1] == ind + tgt and '[]' not in e.get('fields', ()):
+                # x = a (when p); x = b (when q)   ==   x = if q {b} else {a}  (when p or q)
+                ev.struct['effects'][-1] = ('SET', ind + tgt, CANON(T.ite(cond, e['value'], prev[2])) if cond != T.TRUE else CANON(e['value']),
+                                            CANON(T.tor(prev[3], cond)))
+            else:
+                ev.struct['effects'].append(('SET', ind + tgt, CANON(e['value']), cond))
         elif k == 'ret':
             if (e.get('joined') or e.get('as_case')) and not e['loops']:
                 continue    # already one of the CASE lines
@@ -312,6 +329,14 @@ def summarise(crate, body, args=None):
                 cv = T.unroot(cv)
                 effects.append((ind, f"{ind}MUT {e.get('place')}.{cv[1]}({', '.join(raw(a) for a in cv[2])}) WHEN {pc_text(tuple(e['pc']) + tuple(cpc))}",
                                 frozenset(tuple(e['pc']) + tuple(cpc))))
+    ev.struct['other_effects'] = sorted(t for _, t, _ in effects if not t.lstrip().startswith('SET '))
+    # what holds where the effects happen: indices evaluated earlier on the way were in bounds
+    for e in ev.events:
+        if e['kind'] == 'index' and e['depth'] == 0 and not e['loops'] and isinstance(e.get('idx'), tuple) and not T.is_bool(e['idx']) \
+                and not (isinstance(T.unroot(e['idx']), tuple) and T.unroot(e['idx'])[0] == 'range'):
+            base = T.unroot(e['base'])
+            ev.struct['facts'].append((CANON(T.tand(*e['pc'])) if e['pc'] else T.TRUE,
+                                       CANON(T.le0(T.add(T.sub(T.as_lin(e['idx']), T.root(('len', base))), T.const(1))))))
     lines.extend(order_effects(effects))
     # initial values of loop-carried variables
     for nid, l in loops.items():
